@@ -62,7 +62,9 @@ def generate(prop, seed, tier):
     return {'engine': 'wire', 'prop': prop, 'seed': seed, 'spec': spec, 'pres': pres, 'interp': g.random() < 0.75,
             'writer': {'alloc': {'mode': g.choice(['order', 'reuse', 'seq']), 'seed': seed * 2 + 1}, 'dtype': g.choice(['float64', 'float64', 'float32'])},
             'reader': {'alloc': {'mode': g.choice(['order', 'seq']), 'seed': seed * 2 + 2}},
-            'corrupt': corrupt, 'wspecs': wspecs}
+            'corrupt': corrupt, 'wspecs': wspecs,
+            # a real second interpreter as the reader (real addresses as ids, another PYTHONHASHSEED)
+            'reader_proc': {'hashseed': g.randrange(1, 1000)} if g.random() < (0.02 if tier == 'quick' else 0.06) else None}
 
 
 def reducers(case):
@@ -71,6 +73,10 @@ def reducers(case):
     if case.get('corrupt'):
         c = copy.deepcopy(case)
         c['corrupt'] = None
+        yield c
+    if case.get('reader_proc'):
+        c = copy.deepcopy(case)
+        c['reader_proc'] = None
         yield c
     for n, t in case['spec']['terms'].items():
         if t.get('pattern') is not None:
@@ -186,6 +192,33 @@ def corrupt_doc(j, c, counters):
     return ('negative' if val < 0 else 'too-large')
 
 
+CHILD = r'''
+import sys, json
+sys.path.insert(0, sys.argv[1])
+import torch, fggs
+torch.set_num_threads(1)
+torch.set_default_dtype(getattr(torch, sys.argv[2]))
+interp = sys.argv[3] == '1'
+j = json.loads(sys.stdin.read())
+g = fggs.json_to_fgg(j) if interp else fggs.json_to_hrg(j)
+out = {'doc': fggs.fgg_to_json(g) if interp else fggs.hrg_to_json(g)}
+print(json.dumps(out))
+'''
+
+
+def second_interpreter(case, text, interp):
+    import os
+    import subprocess
+    import sys
+    from ..core import REPO
+    env = {k: v for k, v in os.environ.items() if k != 'FGGS_VERIF'}
+    env['PYTHONHASHSEED'] = str(case['reader_proc']['hashseed'])
+    env['OMP_NUM_THREADS'] = '1'
+    p = subprocess.run([sys.executable, '-c', CHILD, REPO, case['writer'].get('dtype', 'float64'), '1' if interp else '0'],
+                       input=text, capture_output=True, text=True, env=env, timeout=120)
+    return p.returncode, p.stdout, p.stderr
+
+
 def execute(case):
     F = import_repo()
     log = Log(keep=False)
@@ -249,6 +282,16 @@ def execute(case):
                         if z2.shape != want.shape or not torch.allclose(z2, want, rtol=tol, atol=tol * 1e-3):
                             V('roundtrip', ['sum-product'], f'sum-product of the re-read grammar {z2.tolist()} != reference {want.tolist()}')
                         log.add('z', [round(v, 6) for v in want.flatten().tolist()])
+                # ---- the same document read and re-written by a real second interpreter
+                if case.get('reader_proc'):
+                    rc, out, err = second_interpreter(case, text, interp)
+                    wenv.c.inc('probe.second-interpreter')
+                    if rc != 0:
+                        V('roundtrip', ['second-interpreter', 'reader-failed'], f'a fresh interpreter failed to read the document: {err[-400:]}')
+                    doc = json.loads(out.strip().splitlines()[-1])['doc']
+                    g4 = (F.json_to_fgg if interp else F.json_to_hrg)(doc)
+                    compare_grammars(g1, g4, interp, wenv.c)
+                    log.add('second-interpreter', 'ok')
                 # ---- fault: corrupted document must be rejected with ValueError
                 if case.get('corrupt'):
                     jc = json.loads(text)
